@@ -26,6 +26,9 @@ CONSTANTS
   WriteErrKeepsEntry = FALSE
   AllowFire = FALSE
   FireRegisters = FALSE
+  RFault = FALSE
+  ReadErrEndsCalls = FALSE
+  LoopSurvivesClose = FALSE
   MaxTry = 1
 INVARIANTS ChanClosedOnlyAfterOwnDone
 CHECK_DEADLOCK FALSE
